@@ -386,6 +386,7 @@ def coverage_case(cid="coverage"):
         S("T8", [("uint16", 1, "id"), ("P2", 3, "px")]),
         S("Strip24", [("P2", 12, "px")]),
         S("Rgb", [("uint8", 3, "c")]),
+        S("W4", [("uint16", 1, "lo"), ("uint16", 1, "hi")]),
         S("HE24", [("IPeer", 1, "peer"), ("uint64", 1, "cookie")]),
         S("HR32", [("uint64", 1, "id"), ("HE24", 1, "hop")]),
         {"k": "interface", "name": "ICov", "base": None, "members": [
@@ -425,6 +426,9 @@ def coverage_case(cid="coverage"):
             M("read_row", [P("in", "uint32", "x"), P("out", "S8", "row", "unbounded"), P("out", "uint32", "w"), P("out", "uint16", "h")]),
             M("write_row", [P("in", "S8", "row", "unbounded"), P("in", "uint32", "w"), P("in", "uint16", "h"), P("out", "uint8", "ok")]),
             M("mix", [P("in", "buffer", "a"), P("in", "uint32", "x"), P("in", "IPeer", "p"), P("out", "uint64", "y"), P("out", "buffer", "b"), P("out", "IPeer", "q")]),
+            # a small struct and a primitive of the SAME size in one bundle (ties keep declaration order)
+            M("tie", [P("in", "W4", "w"), P("in", "uint32", "x"), P("out", "W4", "rw"), P("out", "uint32", "rx")]),
+            M("tie2", [P("in", "uint32", "x"), P("in", "W4", "w"), P("in", "uint16", "y"), P("out", "uint16", "ry"), P("out", "W4", "rw")]),
             M("opt", [P("in", "uint32", "x"), P("out", "uint32", "y")], optional=True),
             # the method after an optional one that the implementor left out has the very same
             # counts and sizes (a dispatch that falls through would serve it under the wrong op)
